@@ -186,6 +186,14 @@ def gen_cases(tier, seed):
         w = rng.randint(1, n)
         add({"op": "rollpair", "dtype": dtype, "w": w, "x1": x1, "nd1": nd1, "x2": swap_sentinel(x1, nd1, nd2), "nd2": nd2})
         add({"op": "roll", "api": "kernel", "dtype": dtype, "x": x1, "w": w, "nd": nd1})
+    # --- (B3b) long series / one very large cell: a running total since the start of the series would leave the
+    #           exactly representable range of float32 although every window sum is small
+    for n, dtype, hi in ((3000, "int16", 32000), (1200, "int64", 30000)) if quick else ((3000, "int16", 32000), (6000, "int16", 32000), (1200, "int64", 30000), (4000, "float32", 30000)):
+        x = [(-9999 if rng.random() < 0.1 else rng.randint(20000, hi)) for _ in range(n)]
+        add({"op": "roll", "api": rng.choice(["kernel", "accessor"]), "dtype": dtype, "x": x, "w": 3, "nd": -9999})
+    for dtype in ("int64", "float32"):
+        x = [4, 16777216, 2, 1, -9999, 1, 3, 2, 5, 7]
+        add({"op": "roll", "api": "kernel", "dtype": dtype, "x": x, "w": 2, "nd": -9999})
     # --- (B4) grouped mean: all series up to length 4/5 x all labelings with k <= 3 groups
     nmg = 4 if quick else 5
     for n in range(1, nmg + 1):
